@@ -262,6 +262,10 @@ class Executor(object):
             return [Outcome('normal', st, type(a)(a.items + b.items))]
         if isinstance(a, VList) and sym == '*' and isinstance(b, VInt) and b.concrete() is not None:
             return [Outcome('normal', st, VList(a.items * b.concrete()))]
+        if isinstance(a, VList) and sym == '*' and isinstance(b, VInt) and len(a.items) == 1 \
+                and isinstance(a.items[0], VInt):
+            cnt = z3.If(b.t < 0, 0, b.t)
+            return [Outcome('normal', st, VSeq(smt.s_rep(a.items[0].t, cnt), 'int', 'list'))]
         if isinstance(a, VStr) and isinstance(b, VStr) and sym == '+':
             return [Outcome('normal', st, VStr(a.s + b.s))]
         if isinstance(a, VStr) and sym == '%':
@@ -890,7 +894,7 @@ class Executor(object):
             raise Unsupported('inline depth')
         if fs.is_generator:
             raise Unsupported('inlining generator %s' % fs.qual)
-        nf = Frame(fs, None, fr.depth + 1)
+        nf = Frame(fs, self.reg.loop_contract(fs.qual), fr.depth + 1)
         env = self.bind_params(fs, args, kwargs, st, fr)
         saved = st.env
         st2 = st
